@@ -34,7 +34,13 @@ let () =
            | [V.StartTag (n, [(a, _)], _)] -> string_of_bytes n = String.lowercase_ascii elem && string_of_bytes a = String.lowercase_ascii attr
            | _ -> false)
           && V.hstate_eqb r.V.r_final V.SData in
-        if fine then ok id "+one_tag_one_attribute"
+        (* the raw attribute value is the output of the HTML escaper: every ampersand begins one of the references
+           it writes (a value that is only URL-normalised leaves character references of the data live) *)
+        let raw_ok = match r.V.r_tokens with
+          | [V.StartTag (_, [(_, value)], _)] -> V.amp_ok value
+          | _ -> true in
+        if fine && not raw_ok && not (V.is_html_kind_value v) then specfail id "attribute_value_not_html_escaped"
+        else if fine then ok id "+one_tag_one_attribute"
         else if V.is_html_kind_value v then specfail id "attribute_value_terminates_attribute_or_tag\tfinding=D5"
         else specfail id "attribute_value_terminates_attribute_or_tag"
       end)
